@@ -48,6 +48,41 @@ class Failpoints:
         # the dict literals list "fun" before "jac" for each of the three senses
         for i, c in enumerate(lambdas):
             found[c] = "cfun" if i % 2 == 0 else "cjac"
+        # frames below the wrappers: every closure produced by the compilers (the compiled objective / gradient / Jacobian /
+        # Hessian callables themselves); a fault raised there passes through the wrappers' own exception handling
+        self.inner_kinds = set()
+
+        def nested(code, top, depth=0):
+            for c in code.co_consts:
+                if isinstance(c, types.CodeType):
+                    if c not in found:
+                        found[c] = "inner:" + top
+                        self.inner_kinds.add("inner:" + top)
+                    if depth < 6:
+                        nested(c, top, depth + 1)
+
+        for mod in (AD, C):
+            for nm, fn in sorted(vars(mod).items()):
+                if isinstance(fn, types.FunctionType) and fn.__module__ == mod.__name__ and (nm.startswith("compile_") or nm.startswith("_compile") or nm.startswith("_build")):
+                    nested(fn.__code__, nm)
+        # the analysis / LP-extraction functions and the Problem's own methods entered during a solve
+        import optyx.analysis as AN
+        from optyx.problem import Problem
+
+        for nm in ("extract_all_linear_coefficients", "extract_constant_term", "extract_linear_coefficient", "classify_constraints", "is_simple_bound",
+                   "compute_degree", "is_linear", "is_quadratic"):
+            fn = getattr(AN, nm, None)
+            if isinstance(fn, types.FunctionType) and fn.__code__ not in found:
+                found[fn.__code__] = "analysis:" + nm
+        ext = getattr(AN, "LinearProgramExtractor", None)
+        for nm, fn in sorted(vars(ext).items()) if ext is not None else []:
+            if isinstance(fn, types.FunctionType) and fn.__code__ not in found:
+                found[fn.__code__] = "analysis:LinearProgramExtractor." + nm
+        for nm, fn in sorted(vars(Problem).items()):
+            if isinstance(fn, property):
+                fn = fn.fget
+            if isinstance(fn, types.FunctionType) and nm not in ("solve", "__init__") and fn.__code__ not in found:
+                found[fn.__code__] = "problem:" + nm
         found[C.compile_expression.__code__] = "build:compile_expression"
         found[AD.compile_jacobian.__code__] = "build:compile_jacobian"
         found[AD.compile_hessian.__code__] = "build:compile_hessian"
